@@ -11,14 +11,15 @@ INVS = ['CountBound', 'Spacing', 'WindowRespected', 'StatsAgree', 'TypeOK']
 PROPS = ['NoSpuriousDenial', 'RejectedHitIsFree', 'ConditionGates']
 
 
-def mc_cfg(configs, atomic=True, threads=2, maxnow=4, hits=3):
+def mc_cfg(configs, atomic=True, threads=2, maxnow=4, hits=3, resets=False):
     return dict(constants=dict(Threads=set(range(1, threads + 1)), MaxNow=maxnow, MaxHits=hits, MaxJump=1,
-                               Configs=tlc.Lit('<- ' + configs), DefaultPeriod=2, Atomic=atomic),
+                               Configs=tlc.Lit('<- ' + configs), DefaultPeriod=2, Atomic=atomic,
+                               ReinstallResets=resets),
                 invariants=INVS, properties=PROPS, deadlock=False)
 
 
 TRACE_CONSTS = dict(Threads={1, 2, 3}, MaxNow=100000, MaxHits=100000, MaxJump=100000, Configs=tlc.Lit('{}'),
-                    DefaultPeriod=2, Atomic=True)
+                    DefaultPeriod=2, Atomic=True, ReinstallResets=False)
 
 
 def model_check(c, quick):
@@ -28,6 +29,8 @@ def model_check(c, quick):
         c.mc('MC_Limiter', mc_cfg('MCConfigsSmall', threads=3, maxnow=3, hits=4), label='ideal, 3 threads')
     r = c.mc_expect_violation('MC_Limiter', mc_cfg('MCConfigsRace', atomic=False, threads=2, maxnow=2, hits=2),
                               label='deviation NonAtomicCheckRecord', what='CountBound')
+    c.mc_expect_violation('MC_Limiter', mc_cfg('MCConfigsRace', threads=1, maxnow=2, hits=2, resets=True),
+                          label='deviation ReinstallResets', what='CountBound')
     return r
 
 
@@ -51,6 +54,9 @@ def replay_sequential(c, graph, n, rng, wd):
                 if a == 'Advance':
                     sysm.rig.clock.set(st['now'])
                     steps.append(['Tick', st['now']])
+                elif a == 'Reinstall':
+                    if sysm.reinstall():
+                        steps.append(['Reinstall'])
                 elif a == 'Arrive':
                     pending = args[1]
                 # a hit completes when the thread is idle again
@@ -98,6 +104,8 @@ def history_trace(rng, cfg, wd, nhits, maxgap, gaps=None):
                 if gap:
                     now += gap
                     rec.tick(now)
+                if h and (rng.random() < 0.2 or (gaps is not None and h % 3 == 0)):
+                    rec.reinstall()       # the service sends a new configuration, this tracepoint unchanged in it
                 sysm.hit(rng.choice(kinds))
                 rec.quiet()
             return rec.trace(1), sysm.rig.escaped
